@@ -1014,14 +1014,20 @@ func (c *Conn) handleBdat(arg string) {
 		var r *io.PipeReader
 		r, c.bdatPipe = io.Pipe()
 
-		c.dataResult = make(chan error, 1)
+		// The delivery goroutine may outlive this transfer (the backend can take
+		// its time after an abort): it must only use what belongs to this
+		// transfer, not whatever the connection holds when it finishes.
+		dataResult := make(chan error, 1)
+		c.dataResult = dataResult
+		status := c.bdatStatus
+		recipients := c.recipients
 
 		go func() {
 			defer func() {
 				if err := recover(); err != nil {
-					c.handlePanic(err, c.bdatStatus)
+					c.handlePanic(err, status)
 
-					c.dataResult <- errPanic
+					dataResult <- errPanic
 					r.CloseWithError(errPanic)
 				}
 			}()
@@ -1033,15 +1039,15 @@ func (c *Conn) handleBdat(arg string) {
 				lmtpSession, ok := c.Session().(LMTPSession)
 				if !ok {
 					err = c.Session().Data(r)
-					for _, rcpt := range c.recipients {
-						c.bdatStatus.SetStatus(rcpt, err)
+					for _, rcpt := range recipients {
+						status.SetStatus(rcpt, err)
 					}
 				} else {
-					err = lmtpSession.LMTPData(r, c.bdatStatus)
+					err = lmtpSession.LMTPData(r, status)
 				}
 			}
 
-			c.dataResult <- err
+			dataResult <- err
 			r.CloseWithError(err)
 		}()
 	}
